@@ -124,12 +124,20 @@ def read_table_independent(root: Any) -> Dict[str, Any]:
                 files.append(ent["data_file"]["file_path"].lstrip("/"))
         snaps[s["snapshot_id"]] = {"files": sorted(set(files)), "parent": s.get("parent_snapshot_id"),
                                    "seq": s.get("sequence_number"), "ts": s["timestamp_ms"]}
+    missing = []
+    for sid, sn in snaps.items():
+        for fp in sn["files"]:
+            try:
+                fetch(fp)
+            except (KeyError, OSError):
+                missing.append((sid, fp))
     cur = meta["current_snapshot_id"]
     rows = []
     if cur is not None and cur != -1 and cur in snaps:
         for fp in snaps[cur]["files"]:
-            rows.extend(pq.read_table(io.BytesIO(fetch(fp))).to_pylist())
-    return {"pointer": hint, "meta": meta, "snapshots": snaps, "current": cur, "rows": rows,
+            if (cur, fp) not in missing:
+                rows.extend(pq.read_table(io.BytesIO(fetch(fp))).to_pylist())
+    return {"pointer": hint, "meta": meta, "snapshots": snaps, "current": cur, "rows": rows, "missing": missing,
             "snapshot_order": [s["snapshot_id"] for s in meta["snapshots"]],
             "log_order": [e["snapshot_id"] for e in meta["snapshot_log"]]}
 
@@ -149,10 +157,13 @@ class CaseResult:
         self.final: Dict[str, Any] = {}
         self.initial: Dict[str, Any] = {}
         self.deadlock: Optional[str] = None
+        self.after: Any = None
+        self.store: Any = None
 
 
 def run_case(scratch: str, case: Dict[str, Any], chooser_factory: Callable[[S.Scheduler], Callable], tag: str = "t",
-             inject: Optional[Dict[str, Callable]] = None, setup: Optional[Callable[[Any], None]] = None) -> CaseResult:
+             inject: Optional[Dict[str, Callable]] = None, setup: Optional[Callable[[Any], None]] = None,
+             after: Optional[Callable[[str, Any], Any]] = None) -> CaseResult:
     import datashard
     from datashard.data_structures import Schema
     from datashard.storage_backend import LocalStorageBackend
@@ -245,6 +256,12 @@ def run_case(scratch: str, case: Dict[str, Any], chooser_factory: Callable[[S.Sc
             res.final = read_table_independent(reader_root)
         except Exception as e:      # unreadable final table is itself an oracle failure
             res.final = {"error": repr(e)[:300]}
+        res.store = store
+        if after is not None:
+            try:
+                res.after = after(root, reader_root)
+            except BaseException as e:   # noqa: BLE001
+                res.after = ("raised", type(e).__name__ + ": " + str(e)[:200])
     return res
 
 
